@@ -4,7 +4,7 @@ package rules
 //
 // The core of C11 (WHICH child version is current at WHICH time, for every history, threshold and query
 // time) depends on timestamps and is NOT decided here. This property decides structural necessary
-// conditions only (DESIGN.md §5 C11, rules A1..A5).
+// conditions only (DESIGN.md §5 C11, rules A1..A7).
 //
 // Technique. Every rule is stated on the PATHS of the functions involved, produced by a small symbolic path
 // interpreter (c11_sym.go values, c11_state.go path state, c11_interp.go expressions, c11_exec.go
@@ -44,7 +44,7 @@ package rules
 //
 // Files: c11.go (registration, mutants), c11_benign.go (behaviour-preserving variants), c11_compute.go (path
 // model of Compute, A1, A2 error returns), c11_a2.go (Ways/Relations/options), c11_a3.go, c11_a4.go (A4 and
-// A5 refs@), c11_a5.go, c11_bound.go (provenance of the window bound), c11_refs.go, c11_gets.go, c11_cmp.go (comparators found by role), c11_ref.go (pointers to locals, method values, defer), c11_rev2.go (reversal flag computed in a later pass), c11_group.go / c11_group_ind.go / c11_list.go (grouping
+// A5 refs@), c11_a5.go, c11_bound.go (provenance of the window bound), c11_refs.go, c11_gets.go, c11_cmp.go (comparators found by role), c11_ref.go (pointers to locals, method values, defer), c11_rev2.go (reversal flag computed in a later pass), c11_a7.go (empty child history never indexed), c11_group.go / c11_group_ind.go / c11_list.go (grouping
 // method: finite-domain evaluation in concrete-list mode, inductive proof of the peel-off form), c11_debug.go (C11_DUMP=<function> prints the paths).
 
 import (
@@ -71,8 +71,9 @@ func init() {
 			"(A2) every path of Compute that returns an error returns one of the documented kinds after the required decisions: the datasource's error unchanged needs err != nil && !NotFound(err); *NoHistoryError (ChildID = the requested id) needs NotFound(err) && !IgnoreMissingChildren; *NoVisibleChildError needs FindVisible(<this parent>) == nil && !IgnoreInconsistency; any other error needs a child version decided not visible && !IgnoreInconsistency; on every path of annotate.Ways / annotate.Relations that reaches core.Compute a loop over the variadic options has called each option with the very *core.Options value handed to Compute; where Compute's error may be non-nil it is classified against every exported core error type, a recognised *core.T is returned as &annotate.T with the corresponding fields carried over, every other error is returned unchanged, and nil is never returned instead; each exported option constructor returns a function that, for every value of the constructor's argument (the zero value included), sets exactly the same-named core.Options field from it and returns nil; only a path that decided the argument negative may refuse it; " +
 			"(A3) SetChild of every Parent implementation stores, on every path with a non-nil child, exactly {Version, ChangesetID, Lat, Lon} of <member list>[idx], each from the same-named shared.Child field, stores none of them for a nil child and never uses child.<field> before deciding child != nil; Child.Update() returns Version, ChangesetID, Lat, Lon from the same-named fields and Reverse from ReverseOfPrevious on every path, and its Timestamp obeys the truth table over (Timestamp.Before(osm.CommitInfoStart), Committed.IsZero()): Committed exactly when both are false, Timestamp otherwise, with the tests made on the right fields; FromNode/FromWay/FromRelation return a Child whose ID is FeatureID(), whose Version, ChangesetID, Visible, Timestamp (Lat/Lon, Way) are the same-named fields and whose Committed is *Committed on the paths where that pointer was decided non-nil and the zero time on the others; " +
 			"(A4) every function of package annotate that builds a core.ChildList from an osm history X (by signature func(osm.Nodes|Ways|Relations) core.ChildList or by make(core.ChildList, len(X)); the list may be allocated by a generic helper taking the length and a callback, presized and indexed or appended to once per iteration from empty) calls X.SortByIDVersion() before the fill loop on every path, every iteration i of that loop stores c = shared.From…(X[i]) with c.VersionIndex = i at list[i] (no iteration without the store, no break), the filled list is what is returned, ReverseOfPrevious is IsReverse(X[i], X[i-1]) on every iteration that decided i > 0 (in any spelling: if, &&, a flag variable) and false or untouched for i == 0 — computed in the fill loop or in a later pass over every position i >= 1 of the built list that has run on every path returning the list; every Datasourcer.Get of package annotate returns nil, the result of such a builder or the user's AsChildren result; the comparator behind each SortByIDVersion (the Less method of the value handed to sort.Sort — a converted slice or a struct carrying slice and ordering function in fields — or the literal handed to sort.Slice), evaluated on all 9 relations of (ID_i vs ID_j, Version_i vs Version_j), is ID_i < ID_j || (ID_i == ID_j && Version_i < Version_j); " +
-			"(A5) locations are recorded as loc{i, j} under refs[j] of parents[i].Refs() and a ref is skipped only after deciding annotated[j] and !opts.ChildFilter(refs[j]); the parent processed is parents[G[0].<parent field>] for a group G produced by the grouping method from the locations of the fetched child, and that method returns the partition of the list into maximal runs of equal parent index, in order (decided by finite-domain evaluation of the method on every concrete location list of length 0..5 with every pattern of equal/different adjacent parents, whatever its spelling; for the peel-off re-slicing spelling additionally proved for any length); SetChild stores the result of the child version selector (a function or method (ChildList, ...) -> *shared.Child that searches the list: FindVisible) called with parent.ChangesetID(), a time derived from the parent and opts.Threshold at cl.<index field> for the locations cl of the group; updates are child[k].Update() for the variable k (plus a constant) of one loop with the strict condition k < end and k advanced by one — or for the elements of a range over child[start:end] —, k starts at cur.VersionIndex+1 (cur != nil), VersionBefore(<time of parent>).VersionIndex+1 (cur == nil, non-nil) or 0, within a group only parents[I] and — after deciding I < len(parents)-1 — parents[I+1] are consulted and the bound depends on parents[I+1] when it exists, the bound is 0 or <version>.VersionIndex + n where the PROVENANCE of the version fixes n: the last list element when no next parent version exists (n = 1), the result of the selector called with only a time derived from the next parent (the last version before the next parent lies inside this parent's interval, visible or not: n = 1, after deciding it non-nil), the result of the selector called with the next parent's changeset (the version the next parent starts from is the exclusive end: n = 0, or n = 1 exactly on the paths that decided its time Before a time derived from the next parent); any other version (e.g. the current child of this parent) or constant is a violation, Update() is called only after deciding child[k].Visible, every value appended to an update list that is (a local copy of) child[k].Update() has Index = cl.<index field> for the location cl of the iteration (range or counting loop) over the group and no other field overwritten, wherever Update() itself is called, and every such iteration appends exactly one, the list accumulated by the window loop is empty at loop entry and is appended to results[I], results = make(…, len(parents)) is what the success path returns; Refs() and SetChild of every Parent implementation address the same member list at the same positions (ids[i] = L[i].FeatureID(), annotated[i] = L[i].Version != 0); " +
+			"(A5) locations are recorded as loc{i, j} under refs[j] of parents[i].Refs() in a map that this call made or, when obtained elsewhere (a pool, a helper, a package variable), emptied before it is filled, and a ref is skipped only after deciding annotated[j] and !opts.ChildFilter(refs[j]); the parent processed is parents[G[0].<parent field>] for a group G produced by the grouping method from the locations of the fetched child, and that method returns the partition of the list into maximal runs of equal parent index, in order (decided by finite-domain evaluation of the method on every concrete location list of length 0..5 with every pattern of equal/different adjacent parents, whatever its spelling; for the peel-off re-slicing spelling additionally proved for any length); SetChild stores the result of the child version selector (a function or method (ChildList, ...) -> *shared.Child that searches the list: FindVisible) called with parent.ChangesetID(), a time derived from the parent and opts.Threshold at cl.<index field> for the locations cl of the group; updates are child[k].Update() for the variable k (plus a constant) of one loop with the strict condition k < end and k advanced by one — or for the elements of a range over child[start:end] —, k starts at cur.VersionIndex+1 (cur != nil), VersionBefore(<time of parent>).VersionIndex+1 (cur == nil, non-nil) or 0, within a group only parents[I] and — after deciding I < len(parents)-1 — parents[I+1] are consulted and the bound depends on parents[I+1] when it exists, the bound is 0 or <version>.VersionIndex + n where the PROVENANCE of the version fixes n: the last list element when no next parent version exists (n = 1), the result of the selector called with only a time derived from the next parent (the last version before the next parent lies inside this parent's interval, visible or not: n = 1, after deciding it non-nil), the result of the selector called with the next parent's changeset (the version the next parent starts from is the exclusive end: n = 0, or n = 1 exactly on the paths that decided its time Before a time derived from the next parent); any other version (e.g. the current child of this parent) or constant is a violation, Update() is called only after deciding child[k].Visible, every value appended to an update list that is (a local copy of) child[k].Update() has Index = cl.<index field> for the location cl of the iteration (range or counting loop) over the group and no other field overwritten, wherever Update() itself is called, and every such iteration appends exactly one, the list accumulated by the window loop is empty at loop entry and is appended to results[I], results = make(…, len(parents)) is what the success path returns; Refs() and SetChild of every Parent implementation address the same member list at the same positions (ids[i] = L[i].FeatureID(), annotated[i] = L[i].Version != 0); " +
 			"(A6) every success path of Compute runs a loop whose every iteration calls SortByIndex on the list that the result slot at its position holds at that moment (a slot replaced by a right-sized copy must be sorted through the slot, not through the stale slice header), and the comparator behind osm.Updates.SortByIndex, evaluated on all 27 relations of (Index, Timestamp, Version) of two updates, is the strict lexicographic order: updates of one child location are applied oldest version last-wins even when timestamps are equal (sort.Sort is not stable). " +
+			"(A7) every read of the fetched child list at a constant or length-relative position (child[0], child[len(child)-1]) in Compute and the helpers it reaches follows, on every path and for every setting of the ignore options, a decision that the list is long enough or a non-nil result of a selector on that list: an empty history must be ignored or reported, never indexed (KNOWN FINDING on the pinned tree: nonempty@Compute child[len(child)-1], the no-next-parent bound of nextVersionIndex with IgnoreInconsistency set). " +
 			"NOT decided: the arithmetic inside FindVisible / VersionBefore and the time comparisons of nextVersionIndex (e.g. whether a boundary comparison is < or <=; which times are compared), the time-travel consequence (ApplyUpdatesUpTo(t) reproduces the state at t), correctness of user-supplied AsChildren datasources (their VersionIndex is trusted), Way/Relation.applyUpdate (C15.U4), that ApplyUpdatesUpTo applies the updates in slice order and builds its pending list fresh, never writing into the update list it was given — the time-travel clause of C11 relies on it; that condition is decided by C15 (seeded C11-f is reported there) and the other comparators of package osm (C12). A code shape the interpreter cannot follow (goto, fallthrough, defer/go/select, address of a non-struct local, more than 20000 paths) makes the affected obligations Unknown (fails), never silently OK.",
 		Assumptions: []string{
 			"go/types (x/tools v0.29.0 go/packages loader)",
@@ -92,6 +93,7 @@ func init() {
 			{ID: "A4", Floor: 14, Doc: "child lists are version-sorted before VersionIndex is assigned; list index == VersionIndex (floor: {sorted, index} x 3 osm source types + reverse@Ways, 4 Get methods, 3 comparators)", Run: c11A4},
 			{ID: "A5", Floor: 14, Doc: "shape of the update window and per-parent grouping in Compute (floor: refs@ x 2 Parent implementations, loc, filter, group parent-index, grouping method, current, window loop/start/end/bound/visible-only/update-index, results)", Run: c11A5},
 			{ID: "A6", Floor: 2, Doc: "application order of a parent's updates: Compute sorts every result list with SortByIndex; its comparator is the strict lexicographic order over (Index, Timestamp, Version) (floor: sort@Compute, order@Updates.SortByIndex)", Run: c11A6},
+			{ID: "A7", Floor: 1, Doc: "an empty child history is ignored or reported, never indexed: reads of the fetched child list at a constant or length-relative position follow evidence that the list is long enough (floor: child[len(child)-1] of the no-next-parent bound)", Run: c11A7},
 		},
 		Benign: c11Benign,
 		Mutants: []core.Mutant{
@@ -332,6 +334,23 @@ func init() {
 				Find:       "\t\t\t// nextVersionIndex figures out what version of this child\n\t\t\t// is present in the next parent version\n\t\t\tnextVersion := nextVersionIndex(c, child, nextParent, opts)\n\n\t\t\tstart := 0\n\t\t\tif c != nil {\n\t\t\t\tstart = c.VersionIndex + 1\n\t\t\t} else {\n\t\t\t\t// current child is not defined, is next child\n\t\t\t\tnext := child.VersionBefore(timeThresholdParent(parent, 0))\n\t\t\t\tif next == nil {\n\t\t\t\t\tstart = 0\n\t\t\t\t} else {\n\t\t\t\t\tstart = next.VersionIndex + 1\n\t\t\t\t}\n\t\t\t}\n\n\t\t\tvar updates osm.Updates\n\t\t\tfor k := start; k < nextVersion; k++ {\n\t\t\t\tif child[k].Visible {\n\t\t\t\t\t// It's possible for this child to be present at multiple locations in the parent\n\t\t\t\t\tfor _, cl := range locs {\n\t\t\t\t\t\tu := child[k].Update()\n\t\t\t\t\t\tu.Index = cl.Index\n\t\t\t\t\t\tupdates = append(updates, u)\n\t\t\t\t\t}\n\t\t\t\t} else {\n\t\t\t\t\t// A child has become not-visible between parent version.\n\t\t\t\t\t// This is a data inconsistency that can happen in old data\n\t\t\t\t\t// i.e. pre element versioning.\n\t\t\t\t\t//\n\t\t\t\t\t// see node 321452894, changed 7 times in\n\t\t\t\t\t// the same changeset, version 5 was a delete. (also node 65172196)\n\t\t\t\t\tif !opts.IgnoreInconsistency {\n\t\t\t\t\t\treturn nil, fmt.Errorf(\"%v: %v: child deleted between parent versions\",\n\t\t\t\t\t\t\tparent.ID(), fid)\n\t\t\t\t\t}\n\t\t\t\t}\n\t\t\t}\n\n\t\t\t// we have what we need for this parent version.\n\t\t\tresults[parentIndex] = append(results[parentIndex], updates...)\n\t\t}\n\t}\n\n\tfor _, r := range results {\n\t\tr.SortByIndex()\n\t}\n\n\treturn results, nil\n}\n\n",
 				Replace:    "\t\t\twin := windowOf(c, child, parent, nextParent, opts)\n\n\t\t\tvar updates osm.Updates\n\t\t\tem := emitter{into: &updates, locs: locs}\n\t\t\tk := win.from\n\t\twindow:\n\t\t\tfor {\n\t\t\t\tswitch {\n\t\t\t\tcase k >= win.to:\n\t\t\t\t\tbreak window\n\t\t\t\tcase child[k].Visible:\n\t\t\t\t\tem.emit(child[k])\n\t\t\t\tcase !opts.IgnoreInconsistency:\n\t\t\t\t\treturn nil, fmt.Errorf(\"%v: %v: child deleted between parent versions\",\n\t\t\t\t\t\tparent.ID(), fid)\n\t\t\t\t}\n\t\t\t\tk++\n\t\t\t}\n\n\t\t\t// we have what we need for this parent version.\n\t\t\tresults[parentIndex] = append(results[parentIndex], updates...)\n\t\t}\n\t}\n\n\tfor _, r := range results {\n\t\tr.SortByIndex()\n\t}\n\n\treturn results, nil\n}\n\n// span is the half open range of child versions that are minor versions of a parent.\ntype span struct{ from, to int }\n\nfunc windowOf(c *shared.Child, child ChildList, parent, nextParent Parent, opts *Options) (w span) {\n\tw.to = nextVersionIndex(c, child, nextParent, opts)\n\tif c == nil {\n\t\tc = child.VersionBefore(timeThresholdParent(parent, 0))\n\t}\n\tif c != nil {\n\t\tw.from = c.VersionIndex + 1\n\t}\n\treturn\n}\n\n// emitter appends one update per location.\ntype emitter struct {\n\tinto *osm.Updates\n\tlocs childLocs\n}\n\nfunc (e *emitter) emit(c *shared.Child) {\n\te.locs.each(func(cl childLoc) bool {\n\t\tu := c.Update()\n\t\tu.Index = cl.Index\n\t\t*e.into = append(*e.into, u)\n\t\treturn false\n\t})\n}\n\n// each calls f for every location until it returns false.\nfunc (locs childLocs) each(f func(childLoc) bool) {\n\tfor _, cl := range locs {\n\t\tif !f(cl) {\n\t\t\treturn\n\t\t}\n\t}\n}\n\n",
 				ExpectRule: "A5", ExpectConstruct: "window@Compute update-index"},
+			// ---- round 9
+			{Name: "location-map-reused-not-emptied", File: cmp,
+				Find:       "// mapChildLocs builds a cache of a where a child is in a set of parents.\nfunc mapChildLocs(parents []Parent, filter func(osm.FeatureID) bool) map[osm.FeatureID]childLocs {\n\tresult := make(map[osm.FeatureID]childLocs)\n",
+				Replace:    "// spareChildLocs is the location map of the previous call, kept for its buckets.\nvar spareChildLocs = make(map[osm.FeatureID]childLocs)\n\n// mapChildLocs builds a cache of a where a child is in a set of parents.\nfunc mapChildLocs(parents []Parent, filter func(osm.FeatureID) bool) map[osm.FeatureID]childLocs {\n\tresult := spareChildLocs\n",
+				ExpectRule: "A5", ExpectConstruct: "loc@Compute"},
+			{Name: "location-map-reused-partly-emptied", File: cmp,
+				Find:       "// mapChildLocs builds a cache of a where a child is in a set of parents.\nfunc mapChildLocs(parents []Parent, filter func(osm.FeatureID) bool) map[osm.FeatureID]childLocs {\n\tresult := make(map[osm.FeatureID]childLocs)\n",
+				Replace:    "// spareChildLocs is the location map of the previous call, kept for its buckets.\nvar spareChildLocs = make(map[osm.FeatureID]childLocs)\n\n// mapChildLocs builds a cache of a where a child is in a set of parents.\nfunc mapChildLocs(parents []Parent, filter func(osm.FeatureID) bool) map[osm.FeatureID]childLocs {\n\tresult := spareChildLocs\n\tfor stale, locs := range result {\n\t\tif len(locs) == 0 {\n\t\t\tdelete(result, stale)\n\t\t}\n\t}\n",
+				ExpectRule: "A5", ExpectConstruct: "loc@Compute"},
+			{Name: "second-unguarded-read-of-first-version", File: cmp,
+				Find:       "\t\t// missing at current and next parent.\n\t\treturn 0 // no updates.",
+				Replace:    "\t\t// missing at current and next parent.\n\t\treturn child[0].VersionIndex // no updates.",
+				ExpectRule: "A7", ExpectConstruct: "nonempty@Compute child[0]"},
+			{Name: "second-to-last-version-read-after-nonempty-check", File: cmp,
+				Find:       "\t\treturn child[len(child)-1].VersionIndex + 1\n",
+				Replace:    "\t\tif len(child) > 0 && child[len(child)-2].Visible {\n\t\t\treturn len(child)\n\t\t}\n\t\treturn child[len(child)-1].VersionIndex + 1\n",
+				ExpectRule: "A7", ExpectConstruct: "nonempty@Compute child[len(child)-2]"},
 		},
 	})
 }
